@@ -202,7 +202,7 @@ void verif_case(Ctx &c) {
 
 // small-scope exhaustive: 2 agents, <= 2 scripted operations each, interleavings at atomic/lock granularity
 void verif_enum(Enum &e) {
-	uint64_t cap = e.tier == "thorough" ? 150000 : 2500;
+	uint64_t cap = e.tier == "thorough" ? 50000 : 2500;
 	struct Shape { std::vector<uint32_t> prefix; const char *name; };
 	// prefix: nagents-2, then per agent: nops-1, ops...
 	std::vector<Shape> shapes = {
